@@ -46,13 +46,17 @@ def one_case(ctx, e, rng, ci):
     kind = ["node clean", "node verify", "group sync", "node sync", "node clean", "group sync-cancel"][ci % 6]
     node = r.choice(ix.nodes)
     node = db.StorageNode.get(id=node.id)
-    acq = r.choice(ix.acqs) if r.random() < 0.3 else None
+    both = ci % 5 == 0          # every fifth case combines --acq with a file list that names only some of that acquisition's files
+    acq = r.choice(ix.acqs) if (both or r.random() < 0.3) else None
     listed = None
     argv_filters = []
     if acq is not None:
         argv_filters += ["--acq", acq.name]
-    if r.random() < 0.25:
-        lf = r.sample(ix.files, k=r.randint(1, len(ix.files)))
+    if both or r.random() < 0.25:
+        pool = [f for f in ix.files if f.acq_id == acq.id] if both else ix.files
+        if len(pool) < 2:
+            pool = ix.files
+        lf = r.sample(pool, k=r.randint(1, max(1, len(pool) - 1)) if both else r.randint(1, len(pool)))
         listed = [f.id for f in lf]
         p = f"{e.tmp}/list{ci}.txt"
         with open(p, "w") as fh:
